@@ -1468,12 +1468,19 @@ func (c *DefaultCtx) renderExtensions(bind any) {
 // Req returns a convenience type whose API is limited to operations
 // on the incoming request.
 func (c *DefaultCtx) Req() Req {
+	if c.req == nil || c.req.ctx != c {
+		// c is a copy of the context NewDefaultCtx built (custom contexts embed it by value)
+		c.req = &DefaultReq{ctx: c}
+	}
 	return c.req
 }
 
 // Res returns a convenience type whose API is limited to operations
 // on the outgoing response.
 func (c *DefaultCtx) Res() Res {
+	if c.res == nil || c.res.ctx != c {
+		c.res = &DefaultRes{ctx: c}
+	}
 	return c.res
 }
 
